@@ -17,7 +17,7 @@ inductive Kind
   | file | module | submodule | program | blockdata
   | subroutine | function | modproc
   | type | variable | boundproc | finalproc
-  | generic | iface | absint | enum | common | namelist | arg
+  | generic | iface | absint | enum | common | namelist | arg | retvar
   deriving DecidableEq, Repr, Inhabited
 
 /-- what the harness knows about one entity -/
@@ -36,6 +36,8 @@ structure Info where
   refs : List Nat
   /-- the `visible` attribute -/
   visible : Bool
+  /-- id of the derived type this type extends (`type, extends(t0) :: t1`) -/
+  ext : Option Nat := none
   deriving Repr, Inhabited
 
 mutual
@@ -71,7 +73,7 @@ def listOf : Kind → String
   | .modproc => "modprocedures" | .type => "types" | .variable => "variables"
   | .boundproc => "boundprocs" | .finalproc => "finalprocs" | .generic => "interfaces"
   | .iface => "interfaces" | .absint => "absinterfaces" | .enum => "enums" | .common => "common"
-  | .namelist => "namelists" | .arg => "args"
+  | .namelist => "namelists" | .arg => "args" | .retvar => "retvar"
 
 /-- which `prune` method an entity of this kind runs -/
 inductive PClass | codeUnit | submodule | dtype | blockData | none
@@ -87,6 +89,22 @@ def classOf : Kind → PClass
 /-- `self.obj == "proc"` -/
 def isProc : Kind → Bool
   | .subroutine | .function | .modproc => true
+  | _ => false
+
+/-- `visible` as the constructor leaves it: namelists, common blocks, block data units (and modules) are
+    `visible` from the start (regenerated list of the classes whose constructor says so); everything else
+    becomes visible when a `prune()` keeps it -/
+def initVisible : Kind → Bool
+  | .namelist => C05.visibleAtInit.contains "FortranNamelist"
+  | .common => C05.visibleAtInit.contains "FortranCommon"
+  | .blockdata => C05.visibleAtInit.contains "FortranBlockData"
+  | .module | .submodule => C05.visibleAtInit.contains "FortranModule"
+  | _ => false
+
+/-- dummy arguments and the declared result of a function: kept in `args` / `retvar`, which no `prune()`
+    touches, and rendered wherever the procedure is -/
+def isArgLike : Kind → Bool
+  | .arg | .retvar => true
   | _ => false
 
 /-- `_set_display`: `parent` is `self.parent.display` (for a file: `settings.display`) -/
@@ -237,10 +255,10 @@ def findIn (n : Nat) : List Ent → Option Ent
     | some r => some r
     | none => findIn n es
 
-/-- dummy arguments among the children -/
+/-- dummy arguments (and the declared result) among the children -/
 def Ents.argIds : Ents → List Nat
   | .nil => []
-  | .cons e rest => (if e.info.kind = .arg then [e.info.id] else []) ++ rest.argIds
+  | .cons e rest => (if isArgLike e.info.kind then [e.info.id] else []) ++ rest.argIds
 
 /-- a referenced procedure is displayed with its own doc and its dummy arguments -/
 def refShown (orig : List Ent) (n : Nat) : List Nat :=
@@ -264,40 +282,341 @@ def allRefsOf : List Ent → List Nat
   | [] => []
   | e :: es => e.allRefs ++ allRefsOf es
 
-/-! ### what the page templates render (hand abstraction of the Jinja templates)
+/-! ### type extension
 
-A procedure that has no page of its own (an internal procedure: its parent is a procedure) is
-rendered by `proc_summary`: its doc and its dummy arguments, nothing else.  Everything else that
-survived `prune` is rendered on the page of the nearest ancestor that has one. -/
+`FortranType.correlate` - which runs for every type, in the order of extension, before any `prune()` -
+puts the members a type inherits in front of its own: the *public* components and the bindings that
+are *not private* of the type it extends (whose lists already carry what that type inherited).  The
+objects are shared; the extending type's `prune()` then filters them with its own display list. -/
+
+def Ents.append : Ents → Ents → Ents
+  | .nil, ys => ys
+  | .cons e r, ys => .cons e (r.append ys)
+
+/-- the two permission tests of `FortranType.correlate` (regenerated as `inheritTests`) -/
+def inheritable (i : Info) : Bool :=
+  (i.kind == .variable && i.perm == .pub) || (i.kind == .boundproc && i.perm != .priv)
+
+def Ents.inheritable : Ents → Ents
+  | .nil => .nil
+  | .cons e rest => if Display.inheritable e.info then .cons e rest.inheritable else rest.inheritable
+
+/-- `variables` / `boundprocs` / `finalprocs` of the type `n` after its `correlate`: what it
+    inherited, then its own (`fuel` bounds the length of the extension chain) -/
+def membersOf (p : List Ent) : Nat → Nat → Ents
+  | 0, _ => .nil
+  | fuel + 1, n =>
+    match findIn n p with
+    | some (.mk i cs) =>
+      (match i.ext with
+       | some m => (membersOf p fuel m).inheritable
+       | none => .nil).append cs
+    | none => .nil
 
 mutual
-def Ent.rendered (pproc : Bool) : Ent → List Nat
-  | .mk i cs => i.id :: (if isProc i.kind && pproc then cs.argIds else cs.rendered (isProc i.kind))
-def Ents.rendered (pproc : Bool) : Ents → List Nat
+/-- the tree as `correlate` leaves it: every extending type carries copies of the members it inherits -/
+def Ent.inherit (p : List Ent) (fuel : Nat) : Ent → Ent
+  | .mk i cs =>
+    .mk i (match i.kind, i.ext with
+           | .type, some m => ((membersOf p fuel m).inheritable).append (cs.inherit p fuel)
+           | _, _ => cs.inherit p fuel)
+def Ents.inherit (p : List Ent) (fuel : Nat) : Ents → Ents
+  | .nil => .nil
+  | .cons e rest => .cons (e.inherit p fuel) (rest.inherit p fuel)
+end
+
+def inheritList (p : List Ent) (fuel : Nat) : List Ent → List Ent
+  | [] => []
+  | f :: fs => f.inherit p fuel :: inheritList p fuel fs
+
+/-- the project after the inheritance step of `correlate` -/
+def inheritProject (p : List Ent) (fuel : Nat) : List Ent := inheritList p fuel p
+
+/-! ### the name of a type-bound procedure in a type summary
+
+`type_summary` (the summary of a type on the page of its module / program / procedure / block data
+unit) prints `bound_declaration(tb, link_name=True)`: the name of every binding in the type's
+`boundprocs` is a link to the binding's own URL whenever the binding is `visible` - and that URL is an
+anchor on the page of the type that *declares* the binding (`get_url` goes through `parent`).  For an
+inherited binding the declaring type is not the type that carries it. -/
+
+def Ents.hasId (n : Nat) : Ents → Bool
+  | .nil => false
+  | .cons e rest => e.info.id == n || rest.hasId n
+
+mutual
+/-- id of the entity that declares `n` (its parent in the project as parsed) -/
+def Ent.parentOf (n : Nat) : Ent → Option Nat
+  | .mk i cs => if cs.hasId n then some i.id else cs.parentOf n
+def Ents.parentOf (n : Nat) : Ents → Option Nat
+  | .nil => none
+  | .cons e rest => match e.parentOf n with
+    | some r => some r
+    | none => rest.parentOf n
+end
+
+def parentIn (n : Nat) : List Ent → Option Nat
+  | [] => none
+  | e :: es => match e.parentOf n with
+    | some r => some r
+    | none => parentIn n es
+
+mutual
+/-- (binding, declaring type) for every visible binding that a type other than its declaring type
+    carries in the tree `q`; `orig` is the project as parsed -/
+def Ent.foreignBindings (orig : List Ent) : Ent → List (Nat × Nat)
+  | .mk i cs => (if i.kind == .type then cs.foreignOf orig i.id else []) ++ cs.foreignBindings orig
+def Ents.foreignBindings (orig : List Ent) : Ents → List (Nat × Nat)
   | .nil => []
-  | .cons e rest => e.rendered pproc ++ rest.rendered pproc
+  | .cons e rest => e.foreignBindings orig ++ rest.foreignBindings orig
+/-- among the members of type `t` -/
+def Ents.foreignOf (orig : List Ent) (t : Nat) : Ents → List (Nat × Nat)
+  | .nil => []
+  | .cons e rest =>
+    (if e.info.kind == .boundproc && e.info.visible then
+       match parentIn e.info.id orig with
+       | some d => if d == t then [] else [(e.info.id, d)]
+       | none => []
+     else []) ++ rest.foreignOf orig t
+end
+
+def foreignBindingsOf (orig : List Ent) : List Ent → List (Nat × Nat)
+  | [] => []
+  | e :: es => e.foreignBindings orig ++ foreignBindingsOf orig es
+
+/-! ### `extends(...)` in a type summary / on a type page
+
+`type, extends({{ dtype.extends | relurl }})` prints the extended type through `__str__`: a link iff that type
+is `visible`.  `prune()` sets `visible` on what it keeps - but `FortranBlockData.correlate` (regenerated
+table `visibleInCorrelate`) marks *every* type of a block data unit before `prune()` runs. -/
+
+/-- `correlate` of a `pk` marks its members of kind `ck` `visible` before any `prune()` -/
+def visibleBeforePrune (pk ck : Kind) : Bool :=
+  pk == .blockdata && ck == .type && C05.visibleInCorrelate.contains ("FortranBlockData", "typeorder")
+
+/-- kind of the entity that declares `n` in the project as parsed -/
+def parentKindIn (n : Nat) (orig : List Ent) : Option Kind :=
+  match parentIn n orig with
+  | some par => (findIn par orig).map (·.info.kind)
+  | none => none
+
+/-- is the type `m` printed as a link when the tree `q` is rendered? -/
+def extLinked (orig q : List Ent) (m : Nat) : Bool :=
+  (visibleIdsOf q).contains m
+  || (match parentKindIn m orig with
+      | some pk => visibleBeforePrune pk .type
+      | none => false)
+
+mutual
+/-- (extending type, extended type) for every type of the tree whose `extends(...)` is a link -/
+def Ent.extLinks (orig q : List Ent) : Ent → List (Nat × Nat)
+  | .mk i cs =>
+    (match i.kind, i.ext with
+     | .type, some m => if extLinked orig q m then [(i.id, m)] else []
+     | _, _ => []) ++ cs.extLinks orig q
+def Ents.extLinks (orig q : List Ent) : Ents → List (Nat × Nat)
+  | .nil => []
+  | .cons e rest => e.extLinks orig q ++ rest.extLinks orig q
+end
+
+def extLinksOf (orig q : List Ent) : List Ent → List (Nat × Nat)
+  | [] => []
+  | e :: es => e.extLinks orig q ++ extLinksOf orig q es
+
+mutual
+/-- no block data unit in the tree -/
+def Ent.noBlockData : Ent → Bool
+  | .mk i cs => i.kind != .blockdata && cs.noBlockData
+def Ents.noBlockData : Ents → Bool
+  | .nil => true
+  | .cons e rest => e.noBlockData && rest.noBlockData
+end
+
+def noBlockDataIn : List Ent → Bool
+  | [] => true
+  | e :: es => e.noBlockData && noBlockDataIn es
+
+mutual
+/-- some type of the tree extends another -/
+def Ent.hasExt : Ent → Bool
+  | .mk i cs => i.ext.isSome || cs.hasExt
+def Ents.hasExt : Ents → Bool
+  | .nil => false
+  | .cons e rest => e.hasExt || rest.hasExt
+end
+
+def noExtension : List Ent → Bool
+  | [] => true
+  | e :: es => !e.hasExt && noExtension es
+
+/-! ### what the page templates render (hand abstraction of the Jinja templates)
+
+A procedure that has no page of its own (an internal procedure: its parent is a procedure; an
+interface body written inside a generic interface block) is rendered by `proc_summary`: its doc, its
+dummy arguments and its result, nothing else.  A namelist is rendered (`namelist_panel`) by the page
+templates that have a namelist section (regenerated list: the procedure and the program page; the
+module and block data pages show only its name in the sidebar).  Everything else that survived
+`prune` is rendered on the page of the nearest ancestor that has one.  `pk` is the kind of the
+parent (`.file` for a file itself). -/
+
+/-- a procedure standing in a `pk` is rendered by `proc_summary` only -/
+def summaryIn (pk : Kind) : Bool := isProc pk || pk == .generic
+
+/-- the page template of a `pk` renders the namelists of the entity -/
+def nmlSection (pk : Kind) : Bool :=
+  match pk with
+  | .subroutine | .function | .modproc => C05.namelistSections.contains "proc_page.html"
+  | .program => C05.namelistSections.contains "prog_page.html"
+  | .module | .submodule => C05.namelistSections.contains "mod_page.html"
+  | .blockdata => C05.namelistSections.contains "block_page.html"
+  | _ => false
+
+mutual
+def Ent.rendered (pk : Kind) : Ent → List Nat
+  | .mk i cs =>
+    if i.kind == .namelist && !nmlSection pk then []
+    else i.id :: (if isProc i.kind && summaryIn pk then cs.argIds else cs.rendered i.kind)
+def Ents.rendered (pk : Kind) : Ents → List Nat
+  | .nil => []
+  | .cons e rest => e.rendered pk ++ rest.rendered pk
 end
 
 def renderedOf : List Ent → List Nat
   | [] => []
-  | e :: es => e.rendered false ++ renderedOf es
+  | e :: es => e.rendered .file ++ renderedOf es
 
 mutual
 /-- refs of the rendered entities -/
-def Ent.renderedRefs (pproc : Bool) : Ent → List Nat
-  | .mk i cs => i.refs ++ (if isProc i.kind && pproc then [] else cs.renderedRefs (isProc i.kind))
-def Ents.renderedRefs (pproc : Bool) : Ents → List Nat
+def Ent.renderedRefs (pk : Kind) : Ent → List Nat
+  | .mk i cs =>
+    if i.kind == .namelist && !nmlSection pk then []
+    else i.refs ++ (if isProc i.kind && summaryIn pk then [] else cs.renderedRefs i.kind)
+def Ents.renderedRefs (pk : Kind) : Ents → List Nat
   | .nil => []
-  | .cons e rest => e.renderedRefs pproc ++ rest.renderedRefs pproc
+  | .cons e rest => e.renderedRefs pk ++ rest.renderedRefs pk
 end
 
 def renderedRefsOf : List Ent → List Nat
   | [] => []
-  | e :: es => e.renderedRefs false ++ renderedRefsOf es
+  | e :: es => e.renderedRefs .file ++ renderedRefsOf es
+
+/-! ### namelist pages
+
+`Project._fortran_file` collects the namelists when a file is read - long before any `prune()` - from the
+members of some of the file's lists and from their `routines` (regenerated table `namelistCollect`);
+`Documentation` writes a `NamelistPage` for each of them: the namelist's doc and the docs of the
+variables it groups. -/
+
+/-- namelists among the children -/
+def Ents.nmlKids : Ents → List Ent
+  | .nil => []
+  | .cons e rest => (if e.info.kind = .namelist then [e] else []) ++ rest.nmlKids
+
+/-- namelists of the `routines` among the children -/
+def Ents.routineNmls : Ents → List Ent
+  | .nil => []
+  | .cons e rest =>
+    (if C05.routinesLists.contains (listOf e.info.kind) then e.kids.nmlKids else []) ++ rest.routineNmls
+
+/-- namelists collected from the units of one file -/
+def Ents.unitNmls : Ents → List Ent
+  | .nil => []
+  | .cons u rest =>
+    (match C05.namelistCollect.lookup (listOf u.info.kind) with
+     | some (direct, routines) =>
+       (if direct then u.kids.nmlKids else []) ++ (if routines then u.kids.routineNmls else [])
+     | none => []) ++ rest.unitNmls
+
+/-- `Project.namelists` (of the project as parsed) -/
+def nmlEnts : List Ent → List Ent
+  | [] => []
+  | f :: fs => f.kids.unitNmls ++ nmlEnts fs
+
+def nmlPageIds (p : List Ent) : List Nat := (nmlEnts p).map (·.info.id)
+
+/-- what the namelist pages show: each namelist and the variables it groups -/
+def nmlShown : List Ent → List Nat
+  | [] => []
+  | n :: ns => (n.info.id :: n.info.refs) ++ nmlShown ns
+
+/-- ids of the entities that get a page of their own: the page lists filled from the pruned units, and the
+    namelists collected from the project as parsed -/
+def sitePageIds (cfg : Cfg) (p : List Ent) : List Nat :=
+  pageIds (pruneProject cfg p) ++ nmlPageIds p
 
 /-- ids whose documentation text is displayed somewhere on the site -/
 def shownIds (cfg : Cfg) (p : List Ent) : List Nat :=
   let q := pruneProject cfg p
-  renderedOf q ++ refsShown p (renderedRefsOf q)
+  renderedOf q ++ refsShown p (renderedRefsOf q) ++ nmlShown (nmlEnts p)
+
+/-! ### what each page shows (hand abstraction of the page templates, per page)
+
+* a file page: the file's doc;
+* the page of a module / submodule / program / block data unit: its doc and everything below it, except
+  that its procedures (they have pages of their own) appear with `proc_summary` only; `type_summary`
+  prints the summary of a binding / final procedure but not the procedure it names, `interface` prints the
+  specific procedures of a generic interface;
+* the page of a procedure, derived type, interface: its doc and everything below it; a type page also
+  prints the procedures its bindings and final procedures name;
+* a namelist page: the namelist's doc and the docs of the variables it groups. -/
+
+/-- units whose procedures have pages of their own -/
+def unitLike : Kind → Bool
+  | .module | .submodule | .program | .blockdata => true
+  | _ => false
+
+def Ents.onUnitPage (uk : Kind) : Ents → List Nat
+  | .nil => []
+  | .cons c rest =>
+    (if isProc c.info.kind then c.info.id :: c.kids.argIds else c.rendered uk) ++ rest.onUnitPage uk
+
+mutual
+/-- refs whose targets are printed with the entity on a page; `brefs`: the page prints the procedures that
+    bindings / final procedures name (type pages only) -/
+def Ent.pageRefs (brefs : Bool) (pk : Kind) : Ent → List Nat
+  | .mk i cs =>
+    if i.kind == .namelist && !nmlSection pk then []
+    else (if (i.kind == .boundproc || i.kind == .finalproc) && !brefs then [] else i.refs)
+      ++ (if isProc i.kind && summaryIn pk then [] else cs.pageRefs brefs i.kind)
+def Ents.pageRefs (brefs : Bool) (pk : Kind) : Ents → List Nat
+  | .nil => []
+  | .cons e rest => e.pageRefs brefs pk ++ rest.pageRefs brefs pk
+end
+
+def Ents.unitPageRefs (uk : Kind) : Ents → List Nat
+  | .nil => []
+  | .cons c rest => (if isProc c.info.kind then [] else c.pageRefs false uk) ++ rest.unitPageRefs uk
+
+/-- ids shown on the page of `x`, which stands in a `pk` -/
+def Ent.pageShows (orig : List Ent) (pk : Kind) (x : Ent) : List Nat :=
+  if unitLike x.info.kind then
+    (x.info.id :: x.kids.onUnitPage x.info.kind) ++ refsShown orig (x.kids.unitPageRefs x.info.kind)
+  else
+    x.rendered pk ++ refsShown orig (x.pageRefs (x.info.kind == .type) pk)
+
+def Ents.memberPages (orig : List Ent) (uk : Kind) : Ents → List (Nat × List Nat)
+  | .nil => []
+  | .cons c rest =>
+    (if inContainers (listOf c.info.kind) then [(c.info.id, c.pageShows orig uk)] else [])
+      ++ rest.memberPages orig uk
+
+def Ents.unitPagesShown (orig : List Ent) : Ents → List (Nat × List Nat)
+  | .nil => []
+  | .cons u rest =>
+    ((u.info.id, u.pageShows orig .file)
+      :: (if inChain (listOf u.info.kind) then u.kids.memberPages orig u.info.kind else []))
+      ++ rest.unitPagesShown orig
+
+def filePagesShown (orig : List Ent) : List Ent → List (Nat × List Nat)
+  | [] => []
+  | f :: fs => ((f.info.id, [f.info.id]) :: f.kids.unitPagesShown orig) ++ filePagesShown orig fs
+
+def nmlPagesShown : List Ent → List (Nat × List Nat)
+  | [] => []
+  | n :: ns => (n.info.id, n.info.id :: n.info.refs) :: nmlPagesShown ns
+
+/-- (page, ids whose documentation the page shows) for every page of the site -/
+def pagesShown (cfg : Cfg) (p : List Ent) : List (Nat × List Nat) :=
+  filePagesShown p (pruneProject cfg p) ++ nmlPagesShown (nmlEnts p)
 
 end Ford.Display
